@@ -34,6 +34,7 @@ type Prog struct {
 	Strs   *ssa.Package
 	byPath map[string]*ssa.Package
 	canon  map[string]types.Object // canonical anchor key -> renamed object of this tree
+	callers map[*ssa.Function][]ssa.CallInstruction
 
 	cgCHA *callgraph.Graph
 	cgVTA *callgraph.Graph
